@@ -19,33 +19,33 @@ import (
 
 func (sw *SW) registerOps() {
 	ops := map[string]func(st sim.Step){
-		"st.hardfork":     sw.opHardfork,
-		"st.settings":     sw.opSettings,
-		"st.rounds":       sw.opRounds,
-		"st.fund":         sw.opFund,
-		"st.add_validator": sw.opAddValidator,
-		"st.add_blobber":  sw.opAddBlobber,
-		"st.stake":        sw.opStake,
-		"st.unstake":      sw.opUnstake,
-		"st.health":       sw.opHealth,
-		"st.health_all":   sw.opHealthAll,
-		"st.new_alloc":    sw.opNewAlloc,
-		"st.update_alloc": sw.opUpdateAlloc,
-		"st.wp_lock":      sw.opWritePoolLock,
-		"st.rp_lock":      sw.opReadPoolLock,
-		"st.rp_unlock":    sw.opReadPoolUnlock,
-		"st.commit":       sw.opCommit,
-		"st.gen_chal":     sw.opGenChallenge,
-		"st.chal_resp":    sw.opChallengeResponse,
-		"st.clock_to":     sw.opClockTo,
-		"st.finalize":     sw.opFinalize,
-		"st.cancel":       sw.opCancel,
-		"st.kill":         sw.opKill,
+		"st.hardfork":       sw.opHardfork,
+		"st.settings":       sw.opSettings,
+		"st.rounds":         sw.opRounds,
+		"st.fund":           sw.opFund,
+		"st.add_validator":  sw.opAddValidator,
+		"st.add_blobber":    sw.opAddBlobber,
+		"st.stake":          sw.opStake,
+		"st.unstake":        sw.opUnstake,
+		"st.health":         sw.opHealth,
+		"st.health_all":     sw.opHealthAll,
+		"st.new_alloc":      sw.opNewAlloc,
+		"st.update_alloc":   sw.opUpdateAlloc,
+		"st.wp_lock":        sw.opWritePoolLock,
+		"st.rp_lock":        sw.opReadPoolLock,
+		"st.rp_unlock":      sw.opReadPoolUnlock,
+		"st.commit":         sw.opCommit,
+		"st.gen_chal":       sw.opGenChallenge,
+		"st.chal_resp":      sw.opChallengeResponse,
+		"st.clock_to":       sw.opClockTo,
+		"st.finalize":       sw.opFinalize,
+		"st.cancel":         sw.opCancel,
+		"st.kill":           sw.opKill,
 		"st.update_blobber": sw.opUpdateBlobber,
-		"st.read":         sw.opRead,
-		"st.add_assigner": sw.opAddAssigner,
-		"st.free_alloc":   sw.opFreeAlloc,
-		"st.collect":      sw.opCollect,
+		"st.read":           sw.opRead,
+		"st.add_assigner":   sw.opAddAssigner,
+		"st.free_alloc":     sw.opFreeAlloc,
+		"st.collect":        sw.opCollect,
 	}
 	for name, h := range ops {
 		h := h
